@@ -40,6 +40,8 @@ LitDs(base) ==
                     \cup {<<8>> \o Rep(0, n) : n \in {3, 7, 15}}
                     \cup {<<7>> \o Rep(15, n) : n \in {3, 7, 15}}
                     \cup {<<1, 2, 3, 4, 5, 6, 7, 8, 9, 10, 11, 12, 13, 14, 15, 0>>, <<10, 11>>, <<0>>}
+                    \* hex numbers whose h spelling begins like a 0b binary number: 0bh 0b1h 0b01h 0b2h
+                    \cup {<<11>>, <<11, 1>>, <<11, 0, 1>>, <<11, 2>>}
     [] base = 2  -> {Rep(1, n) : n \in {1, 8, 16, 31, 32, 33, 63, 64}}
                     \cup {<<1>> \o Rep(0, n) : n \in {1, 7, 31, 32, 62, 63}}
                     \cup {<<1, 0, 1, 1, 0, 0, 1>>, <<0>>}
@@ -64,7 +66,10 @@ LitDs(base) ==
                      <<4, 2, 9, 4, 9, 6, 7, 2, 9, 6>>,
                      <<9, 2, 2, 3, 3, 7, 2, 0, 3, 6, 8, 5, 4, 7, 7, 5, 8, 0, 7>>,
                      <<1, 2, 3, 4, 5, 6, 7, 8, 9, 0, 1, 2, 3, 4, 5, 6, 7, 8, 9>>,
-                     <<1, 0, 0, 0, 0, 0, 0, 0, 0, 0, 0, 0, 0, 0, 0, 0, 0, 0, 0>>}
+                     <<1, 0, 0, 0, 0, 0, 0, 0, 0, 0, 0, 0, 0, 0, 0, 0, 0, 0, 0>>,
+                     \* 2^63 and 2^64 - 1 written in decimal: the same 64-bit words as 0x8000000000000000 and 0xffffffffffffffff
+                     <<9, 2, 2, 3, 3, 7, 2, 0, 3, 6, 8, 5, 4, 7, 7, 5, 8, 0, 8>>,
+                     <<1, 8, 4, 4, 6, 7, 4, 4, 0, 7, 3, 7, 0, 9, 5, 5, 1, 6, 1, 5>>}
 
 Styles == {[style |-> "dec", base |-> 10], [style |-> "0x", base |-> 16], [style |-> "h", base |-> 16],
            [style |-> "0b", base |-> 2], [style |-> "b", base |-> 2], [style |-> "q", base |-> 8],
